@@ -24,6 +24,18 @@ def K(kind, detail=None, extra=None):
     return f
 
 
+def permit_binding(b):
+    """(named locals of the body that hold the OwnedSemaphorePermit, True if one of them is moved out of
+    the closure environment `_1.<upvar>`) - by type, independent of variable names."""
+    locs = [i for i, l in enumerate(b.locals) if "OwnedSemaphorePermit" in l["ty"] and l["name"] and i != 1]
+    from_env = False
+    for blk in b.blocks:
+        for st in blk["s"]:
+            if st["k"] == "assign" and not st["p"]["pr"] and st["p"]["l"] in locs and st["r"]["k"] == "use" and st["r"]["o"]["k"] != "const" and st["r"]["o"]["p"]["l"] == 1 and st["r"]["o"]["p"]["pr"]:
+                from_env = True
+    return locs, from_env
+
+
 class Srv:
     def __init__(self, ctx, res):
         import env
@@ -372,8 +384,9 @@ class Srv:
             mpc = [e for e in h.events[mpcf[0]] if not e.nested and e.kind == "mpc"][0]
         mpc_k, mpc_b = mpcf
         # permit lives inside the mpc future
-        has_permit = "permit" in mpc_b.upvars
-        moved = any(l["name"] == "_permit" for l in mpc_b.locals)
+        plocs, from_env = permit_binding(mpc_b)
+        has_permit = from_env
+        moved = bool(plocs)
         dropped = []
         for kk, bb in ((mpc_k, mpc_b), fut if fut else (None, None)):
             if bb is None:
@@ -384,7 +397,7 @@ class Srv:
         # the permit outlives everything the task does for this policy: after any (non-unwinding) drop of
         # the bound permit no result delivery and no Stop command is still to come
         early = None
-        pl = [i for i, l in enumerate(mpc_b.locals) if "OwnedSemaphorePermit" in l["ty"] and l["name"]]
+        pl = plocs
         mevs = [e for e in h.events[mpc_k] if not e.nested]
         later = {e.block for e in mevs if (e.kind == "client" and e.detail == "output") or (e.kind == "self_cmd" and e.detail == "Stop")}
         live = mpc_b.live_blocks()
@@ -1321,14 +1334,15 @@ class Srv:
         if mpcf is None:
             return
         k, b = mpcf
-        has_permit = "permit" in b.upvars
-        moved = any(l["name"] == "_permit" for l in b.locals)
+        plocs, from_env = permit_binding(b)
+        has_permit = from_env
+        moved = bool(plocs)
         mpc = [e for e in hr.events[k] if e.kind == "mpc" and not e.nested]
         # _permit bound before the mpc call and alive across it: binding dominates the call
         bound_before = False
         for bi, blk in enumerate(b.blocks):
             for s in blk["s"]:
-                if s["k"] == "assign" and not s["p"]["pr"] and b.locals[s["p"]["l"]]["name"] == "_permit" and mpc and b.dominates(bi, mpc[0].block):
+                if s["k"] == "assign" and not s["p"]["pr"] and s["p"]["l"] in plocs and mpc and b.dominates(bi, mpc[0].block):
                     bound_before = True
         drops = []
         for kk, bb in [mpcf] + ([fut] if fut else []):
@@ -1340,7 +1354,7 @@ class Srv:
         if mpc:
             for bi, blk in enumerate(b.blocks):
                 t = blk["t"]
-                if t["k"] == "drop" and not t["p"]["pr"] and b.locals[t["p"]["l"]]["name"] == "_permit" and bi in b.live_blocks() and not blk["cleanup"]:
+                if t["k"] == "drop" and not t["p"]["pr"] and t["p"]["l"] in plocs and bi in b.live_blocks() and not blk["cleanup"]:
                     if mpc[0].block in b.reachable_from(bi):
                         early.append(bi)
         if has_permit and moved and bound_before and not drops and not early:
